@@ -2,7 +2,7 @@
 "is this a non-negative combination of what we assumed" test.  No search beyond pairs of assumptions,
 no solver.  Quantities are treated as mathematical integers (sizes, counts and addresses of the library
 do not wrap; stated in DESIGN §8)."""
-from .terms import (Lin, ZERO, const, atom, TRUE, FALSE, c_not, c_and, c_or, c_cmp, mk_gamma, mk_mul, mk_alignup, subst,
+from .terms import (Lin, ZERO, const, atom, TRUE, FALSE, c_not, c_and, c_or, c_cmp, mk_gamma, mk_mul, mk_alignup, mk_and, subst,
                     cond_atoms, show, show_cond)
 
 
@@ -271,6 +271,59 @@ class Facts:
         for L in rows:
             for a, _ in L.t:
                 atoms.add(a)
+        # definitional rows:  x == 2^k * (x >> k) + (x & (2^k - 1)),  0 <= x & m <= m,  [c] in {0,1},
+        #                      [r != 0] <= r  and  r <= m * [r != 0]  for r = x & m
+        def walk_all(L, acc):
+            for a, _ in L.t:
+                if a in acc:
+                    continue
+                acc.add(a)
+                for x in a[1:]:
+                    if isinstance(x, Lin):
+                        walk_all(x, acc)
+                    elif isinstance(x, tuple) and x and x[0] in ("not", "cmp", "and", "or") and \
+                            (x[0] == "cmp" or all(isinstance(y, tuple) for y in x[1:])):
+                        for leaf in cond_atoms(x):
+                            if leaf[0] == "cmp":
+                                walk_all(leaf[2], acc)
+                                walk_all(leaf[3], acc)
+        allat = set()
+        for L in rows:
+            walk_all(L, allat)
+        for a in list(allat):
+            if a[0] == "lshr" and isinstance(a[2], Lin) and a[2].is_const() and 0 < a[2].c < 32:
+                k = a[2].c
+                msk = (1 << k) - 1
+                x = a[1]
+                r = mk_and(x, const(msk))
+                e = x - atom(a).scale(1 << k) - r
+                rows.append(e)
+                rows.append(-e)
+                for b in r.atoms():
+                    allat.add(b)
+                # x ≡ 0 (mod 2^j)  =>  x mod 2^k is a multiple of 2^j, hence <= 2^k - 2^j
+                xm, xr = self.cong(x)
+                if xr == 0 and xm > 1:
+                    rows.append(const((1 << k) - min(xm, 1 << k)) - r)
+            if a[0] == "and":
+                for u, w in ((a[1], a[2]), (a[2], a[1])):
+                    if isinstance(w, Lin) and w.is_const() and w.c > 0:
+                        rows.append(atom(a))
+                        rows.append(const(w.c) - atom(a))
+        for a in list(allat):
+            if a[0] == "b2i":
+                rows.append(atom(a))
+                rows.append(const(1) - atom(a))
+                c = a[1]
+                if c[0] == "not" and c[1][0] == "cmp" and c[1][1] == "eq":
+                    L = self.apply_sub(c[1][2] - c[1][3])
+                    if self._all_nonneg(L):
+                        rows.append(L - atom(a))
+                        sa = L.single_atom()
+                        if sa is not None and sa[0] == "and":
+                            for w in (sa[1], sa[2]):
+                                if isinstance(w, Lin) and w.is_const() and w.c > 0:
+                                    rows.append(atom(a).scale(w.c) - L)
         for a in list(atoms):
             if a[0] == "unk":
                 continue
@@ -589,12 +642,41 @@ def simplify(t, facts, depth=0):
             return atom(("mem", simplify(a[1], facts, depth + 1), a[2]))
         if k == "alignup":
             x = simplify(a[1], facts, depth + 1)
+            A = a[2]
             m, r = facts.cong(x)
-            if m == 0 or m >= a[2]:
-                return x + ((-r) % a[2])
-            return mk_alignup(x, a[2])
+            if m == 0 or m >= A:
+                return x + ((-r) % A)
+            # pull out the summands that the congruence domain proves to be multiples of A
+            out = ZERO
+            rest = Lin(x.c)
+            for t, kk in x.t:
+                tm, tr = facts.cong(atom(t).scale(kk))
+                if (tm == 0 and tr % A == 0) or (tm >= A and tr % A == 0):
+                    out = out + atom(t).scale(kk)
+                else:
+                    rest = rest + atom(t).scale(kk)
+            if out.t:
+                return out + mk_alignup(rest, A)
+            return mk_alignup(x, A)
         if k in ("arg", "fresh", "alloca", "unk", "iv", "global", "fconst", "exit"):
             return atom(a)
+        if k == "and" and isinstance(a[1], Lin) and isinstance(a[2], Lin) and (a[1].is_const() or a[2].is_const()):
+            # x & m where the low j bits of x are known zero and m | (2^j - 1) == 2^k - 1:  x mod 2^k
+            x, mk = (a[2], a[1].c) if a[1].is_const() else (a[1], a[2].c)
+            x = simplify(x, facts, depth + 1)
+            if mk > 0:
+                m_, r_ = facts.cong(x)
+                j = 0
+                if r_ == 0 or m_ == 0:
+                    mm = m_ if m_ else ((r_ & -r_) if r_ else 1 << 12)
+                    while (1 << (j + 1)) <= mm:
+                        j += 1
+                full = mk | ((1 << j) - 1)
+                if full & (full + 1) == 0:  # 2^k - 1
+                    kbits = full.bit_length()
+                    from .terms import mk_bin
+                    return x - mk_bin("lshr", x, const(kbits)).scale(1 << kbits)
+            return mk_and(x, const(mk))
         out = [k]
         for x in a[1:]:
             out.append(simplify(x, facts, depth + 1) if isinstance(x, Lin) else x)
